@@ -12,6 +12,7 @@ package main
 
 import (
 	"fmt"
+	"strconv"
 
 	"github.com/jamespfennell/gtfs"
 )
@@ -79,6 +80,23 @@ func c08StopTimes(tier string) Harness {
 		n.trips = maxOf(d) + 1
 		m := genStaticFeedN(c, false, n, d, nil)
 		sameZone(m)
+		// sequence numbers at numeric boundaries: around 2^31, beyond 2^32 (stop_sequence is an int)
+		if tr := c.Free("sequence_range", 4); tr > 0 {
+			st := m.t("stop_times.txt")
+			for r := range st.Rows {
+				v, _ := st.get(r, "stop_sequence")
+				n, _ := strconv.ParseInt(v, 10, 64)
+				switch tr {
+				case 1:
+					n += 2147483646 // straddles 2^31
+				case 2:
+					n = n<<32 + (1000 - n) // high word ascending, low word descending
+				case 3:
+					n = n*1000003 + 1
+				}
+				st.set(r, "stop_sequence", strconv.FormatInt(n, 10))
+			}
+		}
 		perm := c.Perm("stop_times.row", len(d))
 		permuteRows(m.t("stop_times.txt"), perm)
 		identity := true
@@ -104,8 +122,24 @@ func c08StopTimes(tier string) Harness {
 		if interleaved {
 			c.Witness("rows_of_different_trips_interleaved")
 		}
-		c08Compare(c, m, "stop_times-row-order-irrelevant", fmt.Sprint(d), !identity)
+		firstSeq, _ := m.t("stop_times.txt").get(0, "stop_sequence")
+		_ = firstSeq
+		c08Compare(c, m, "stop_times-row-order-irrelevant", fmt.Sprint(d)+seqRangeKey(m), !identity)
 	}
+}
+
+// seqRangeKey identifies the set of sequence numbers of the feed (independent of row order).
+func seqRangeKey(m *feedModel) string {
+	st := m.t("stop_times.txt")
+	var max int64
+	for r := range st.Rows {
+		v, _ := st.get(r, "stop_sequence")
+		n, _ := strconv.ParseInt(v, 10, 64)
+		if n > max {
+			max = n
+		}
+	}
+	return fmt.Sprint("/max-seq=", max)
 }
 
 func c08Shapes(tier string) Harness {
@@ -164,7 +198,7 @@ func init() {
 	register(&Check{
 		ID:    "C08",
 		Level: "model_checking",
-		Rule: "feeds with rows distributed over 2-3 trips / shapes (5 distributions of <=6 rows; thorough 6 distributions of <=8 rows), sequence numbers 2,10,100,0,33,... (text order != numeric order); ALL permutations of stop_times.txt rows and of shapes.txt rows; ALL permutations of the rows of agency, routes, stops, transfers, calendar, calendar_dates, trips, frequencies (3-5 rows each); " +
+		Rule: "feeds with rows distributed over 2-3 trips / shapes (5 distributions of <=6 rows; thorough 6 distributions of <=8 rows), sequence numbers 2,10,100,0,33,... (text order != numeric order), also shifted to straddle 2^31, spread beyond 2^32 and multiplied; ALL permutations of stop_times.txt rows and of shapes.txt rows; ALL permutations of the rows of agency, routes, stops, transfers, calendar, calendar_dates, trips, frequencies (3-5 rows each); " +
 			"non-trivial = distinct archives whose rows are not in identity order; oracles = reference interpretation + relation (feed up to row order -> dump)",
 		Assumptions: []string{"all agencies share one zone in this check (the first agency legitimately determines the zone of every date)", "reference targets are named by id so that a permuted collection compares independent of indices"},
 		Scenarios: func(tier string) []*Scenario {
